@@ -690,3 +690,520 @@ Proof.
     apply OkSeq. repeat constructor. }
   apply (H _ D). vm_compute. reflexivity.
 Qed.
+
+(* ================================================================================================ *)
+(* R1 + R2, globally: every ACCEPTED token stream obeys the bracket discipline.  A second invariant     *)
+(* (next to C02's [Inv]) carried through all 21 parser states: [Good p] says that the tokens still       *)
+(* ahead close exactly the flow collections the state and the state stack have open.  Each step is      *)
+(* shown to preserve it BACKWARDS (goodness of the successor implies goodness of [p]); a run that ends   *)
+(* in PDone ends in a good state, hence the initial state is good, i.e. the whole stream is balanced.    *)
+(* The one defect of the code (the closer swallowed behind an empty explicit key) is part of [bal'].     *)
+(* ================================================================================================ *)
+Close Scope N_scope.
+(* bracket discipline of a token stream up to StreamEnd, with the defect of flow_sequence_entry_mapping_key built in:
+   inside a flow sequence a Key token directly followed by FlowSequenceEnd swallows that closer *)
+Fixpoint bal' (l : list token) (stk : list bool) : bool :=
+  match l with
+  | [] => false
+  | (_, t) :: r =>
+    match t with
+    | TStreamEnd => match stk with [] => true | _ => false end
+    | TFlowSequenceStart => bal' r (true :: stk)
+    | TFlowMappingStart => bal' r (false :: stk)
+    | TFlowSequenceEnd => match stk with true :: s => bal' r s | _ => false end
+    | TFlowMappingEnd => match stk with false :: s => bal' r s | _ => false end
+    | TKey => match r with
+              | (_, TFlowSequenceEnd) :: r' => match stk with true :: _ => bal' r' stk | _ => bal' r stk end
+              | _ => bal' r stk
+              end
+    | _ => bal' r stk
+    end
+  end.
+
+Definition balk (l : list token) (stk : list bool) : bool :=
+  match l with
+  | (_, TFlowSequenceEnd) :: r' => bal' r' stk
+  | _ => bal' l stk
+  end.
+
+Lemma bal'_key sp r X : bal' ((sp, TKey) :: r) (true :: X) = balk r (true :: X).
+Proof. cbn [bal']. unfold balk. destruct r as [|[sp2 tk2] r2]; [reflexivity|]. destruct tk2; reflexivity. Qed.
+
+Definition frames_of (s : pstate) : list bool :=
+  match s with
+  | SFlowSequenceEntry | SFlowSequenceEntryMappingKey | SFlowSequenceEntryMappingValue | SFlowSequenceEntryMappingEnd _ => [true]
+  | SFlowMappingKey | SFlowMappingValue | SFlowMappingEmptyValue => [false]
+  | _ => []
+  end.
+Definition stack_open (l : list pstate) : list bool := flat_map frames_of l.
+
+Definition Good (p : parser) : Prop :=
+  match p_state p with
+  | SEnd => True
+  | SFlowSequenceEntryMappingKey => balk (toks_ahead p) (true :: stack_open (p_states p)) = true
+  | st => bal' (toks_ahead p) (frames_of st ++ stack_open (p_states p)) = true
+  end.
+
+Lemma peek_nil p : toks_ahead p = [] -> Parser.peek p = Parser.Err PErrScan.
+Proof.
+  unfold toks_ahead, Parser.peek. destruct (p_token p); [discriminate|]. intros ->. reflexivity.
+Qed.
+
+(* tokens without influence on the bracket discipline *)
+Definition neutral (tk : tok) : bool :=
+  match tk with
+  | TStreamEnd | TFlowSequenceStart | TFlowMappingStart | TFlowSequenceEnd | TFlowMappingEnd | TKey => false
+  | _ => true
+  end.
+Lemma bal'_neutral sp tk r X : neutral tk = true -> bal' ((sp, tk) :: r) X = bal' r X.
+Proof. destruct tk; cbn; try discriminate; reflexivity. Qed.
+
+Definition goodS (st : pstate) (toks : list token) (stk : list pstate) : Prop :=
+  match st with
+  | SEnd => True
+  | SFlowSequenceEntryMappingKey => balk toks (true :: stack_open stk) = true
+  | _ => bal' toks (frames_of st ++ stack_open stk) = true
+  end.
+Lemma Good_goodS p : Good p = goodS (p_state p) (toks_ahead p) (p_states p).
+Proof. unfold Good, goodS. destruct (p_state p); reflexivity. Qed.
+
+Definition first_ok (p : parser) : Prop :=
+  match p_state p with
+  | SFlowSequenceFirstEntry => exists sp r, toks_ahead p = (sp, TFlowSequenceStart) :: r
+  | SFlowMappingFirstKey => exists sp r, toks_ahead p = (sp, TFlowMappingStart) :: r
+  | SBlockSequenceFirstEntry => exists sp r, toks_ahead p = (sp, TBlockSequenceStart) :: r
+  | SBlockMappingFirstKey => exists sp r, toks_ahead p = (sp, TBlockMappingStart) :: r
+  | _ => True
+  end.
+
+(* what a step owes: the result keeps [first_ok], and goodness of the result implies the given bracket fact about [p] *)
+Definition bpost (P : Prop) (r : res ((event * span) * parser)) : Prop :=
+  match r with
+  | Parser.Ok (_, p') => first_ok p' /\ (Good p' -> P)
+  | _ => True
+  end.
+
+Lemma Rooted_head s r : Rooted (s :: r) -> s <> SEnd /\ s <> SFlowSequenceEntryMappingKey.
+Proof.
+  intros H. inversion H as [|s' r' Hc Hr]; subst; [split; discriminate|].
+  destruct s; try discriminate; split; discriminate.
+Qed.
+
+Lemma goodS_plain s toks stk : s <> SEnd -> s <> SFlowSequenceEntryMappingKey ->
+  goodS s toks stk = (bal' toks (frames_of s ++ stack_open stk) = true).
+Proof. intros A B. destruct s; try reflexivity; congruence. Qed.
+
+#[local] Arguments pop_state : simpl never.
+
+(* a leaf: the continuation is popped; [k] (skip or identity) does not look at state and stack *)
+Lemma bpost_pop (P : Prop) q e sp (k : parser -> parser) :
+  Rooted (p_states q) ->
+  (forall x, p_state (k x) = p_state x /\ p_states (k x) = p_states x) ->
+  (forall s r, toks_ahead (k (set_state (set_states q r) s)) = toks_ahead (k q)) ->
+  (bal' (toks_ahead (k q)) (stack_open (p_states q)) = true -> P) ->
+  bpost P (do x <- pop_state q; Parser.Ok ((e, sp), k x)).
+Proof.
+  intros HR Hk Ht HP.
+  destruct (pop_state_spec q HR) as (s & r & F' & Hst & Hpop & _ & _).
+  rewrite Hpop. cbn [bpost].
+  destruct (Hk (set_state (set_states q r) s)) as [Hs Hss]. cbn in Hs, Hss.
+  assert (HH : Rooted (s :: r)) by (rewrite <- Hst; exact HR).
+  destruct (Rooted_head _ _ HH) as [N1 N2].
+  split.
+  - unfold first_ok. rewrite Hs. inversion HH as [|s' r' Hc Hr]; subst; [exact I|]. destruct s; try discriminate; exact I.
+  - rewrite Good_goodS, Hs, Hss, (goodS_plain _ _ _ N1 N2), Ht. intros H. apply HP.
+    rewrite Hst. exact H.
+Qed.
+
+Ltac bfin HT HR :=
+  first
+  [ exact I
+  | (apply bpost_pop; [ cbn; exact HR | intros; split; reflexivity | intros; reflexivity
+                      | cbn; rewrite ?HT; cbn; (let HH := fresh "HH" in intro HH; exact HH) ])
+  | (cbn [bpost]; split; [ cbn; first [exact I | (do 2 eexists; reflexivity)]
+                         | unfold Good; cbn; rewrite ?HT; cbn; (let HH := fresh "HH" in intro HH; exact HH) ]) ].
+
+Lemma node_content_bal p aid tg b i :
+  Rooted (p_states p) ->
+  bpost (bal' (toks_ahead p) (stack_open (p_states p)) = true) (node_content p aid tg b i).
+Proof.
+  intros HR. unfold node_content.
+  destruct (toks_ahead p) as [|[sp tk] r] eqn:HT; [rewrite (peek_nil _ HT); exact I|].
+  rewrite (peek_norm _ _ _ HT). cbn beta iota.
+  destruct tk; try destruct i; try destruct b; unfold empty_or_err; try destruct (has_props aid tg); bfin HT HR.
+Qed.
+
+Lemma node_props_toks q sp tk :
+  p_token q = Some (sp, tk) ->
+  match node_props q (sp, tk) with
+  | Parser.Ok (_, _, q') => p_states q' = p_states q /\ (forall X, bal' (toks_ahead q') X = bal' (toks_ahead q) X)
+  | _ => True
+  end.
+Proof.
+  intros HC. unfold node_props.
+  destruct tk; try (split; [reflexivity | intros; reflexivity]).
+  - (* anchor *)
+    cbn [register_anchor]. unfold Parser.peek. cbn.
+    destruct (p_toks q) as [|[sp2 tk2] r2] eqn:HQ; [exact I|]. cbn.
+    destruct tk2; try (split; [reflexivity | intros X; unfold toks_ahead; cbn; rewrite HC, HQ; reflexivity]).
+    destruct (resolve_tag _ _ _ _); try exact I.
+    split; [reflexivity | intros X; unfold toks_ahead; cbn; rewrite HC, HQ; reflexivity].
+  - (* tag *)
+    destruct (resolve_tag _ _ _ _); try exact I.
+    unfold Parser.peek. cbn.
+    destruct (p_toks q) as [|[sp2 tk2] r2] eqn:HQ; [exact I|]. cbn.
+    destruct tk2; try (split; [reflexivity | intros X; unfold toks_ahead; cbn; rewrite HC, ?HQ; reflexivity]).
+Qed.
+
+#[local] Arguments node_content : simpl never.
+#[local] Arguments node_props : simpl never.
+
+Lemma parse_node_bal p b i :
+  Rooted (p_states p) ->
+  bpost (bal' (toks_ahead p) (stack_open (p_states p)) = true) (parse_node p b i).
+Proof.
+  intros HR. unfold parse_node.
+  destruct (toks_ahead p) as [|[sp tk] r] eqn:HT; [rewrite (peek_nil _ HT); exact I|].
+  rewrite (peek_norm _ _ _ HT). cbn beta iota.
+  set (q := set_tok p r (Some (sp, tk))).
+  assert (HQ : p_token q = Some (sp, tk)) by reflexivity.
+  assert (HRq : Rooted (p_states q)) by exact HR.
+  assert (HTq : toks_ahead q = (sp, tk) :: r) by reflexivity.
+  assert (General :
+    bpost (bal' ((sp, tk) :: r) (stack_open (p_states p)) = true)
+          (do (aid, tg, p0) <- node_props q (sp, tk); node_content p0 aid tg b i)).
+  { pose proof (node_props_toks q sp tk HQ) as HN.
+    destruct (node_props q (sp, tk)) as [[[aid tg] q']|e|n]; try exact I.
+    destruct HN as [Hst Hb].
+    assert (HR' : Rooted (p_states q')) by (rewrite Hst; exact HRq).
+    pose proof (node_content_bal q' aid tg b i HR') as HC.
+    destruct (node_content q' aid tg b i) as [[ev p']|e|n]; try exact I.
+    cbn [bpost] in *. destruct HC as [HF HG]. split; [exact HF|].
+    intros HGood. specialize (HG HGood). rewrite Hb, Hst, HTq in HG. exact HG. }
+  destruct tk; try exact General.
+  (* alias *)
+  clear General. subst q.
+  match goal with |- context [pop_state ?x] =>
+    destruct (pop_state_spec x HRq) as (s & r' & F' & Hst & Hpop & _ & _); rewrite Hpop end. cbn.
+  destruct (assoc n (p_anchors p)); [|exact I].
+  assert (HH : Rooted (s :: r')) by (rewrite <- Hst; exact HRq).
+  destruct (Rooted_head _ _ HH) as [N1 N2].
+  cbn [bpost]. split.
+  - unfold first_ok. cbn. inversion HH as [|s' r'' Hc Hr]; subst; [exact I|]. destruct s; try discriminate; exact I.
+  - rewrite Good_goodS. cbn. rewrite (goodS_plain _ _ _ N1 N2). intros H.
+    cbn in Hst. rewrite Hst. exact H.
+Qed.
+
+(* ---- document level ---- *)
+Definition same_brackets (p q : parser) : Prop :=
+  p_state q = p_state p /\ p_states q = p_states p /\ forall X, bal' (toks_ahead q) X = bal' (toks_ahead p) X.
+
+Lemma same_brackets_refl p : same_brackets p p.
+Proof. repeat split; reflexivity. Qed.
+
+Lemma skip_document_ends_bal fuel : forall p,
+  match skip_document_ends fuel p with Parser.Ok q => same_brackets p q | _ => True end.
+Proof.
+  induction fuel as [|fuel IH]; intros p; [exact I|].
+  cbn [skip_document_ends].
+  destruct (toks_ahead p) as [|[sp tk] r] eqn:HT; [rewrite (peek_nil _ HT); exact I|].
+  rewrite (peek_norm _ _ _ HT). cbn beta iota.
+  destruct tk; try (repeat split; try reflexivity; intros X; unfold toks_ahead at 1; cbn; rewrite HT; reflexivity).
+  specialize (IH (skip (set_tok p r (Some (sp, TDocumentEnd))))).
+  destruct (skip_document_ends fuel _) as [q|e|n]; try exact I.
+  destruct IH as (A & B & C). repeat split; [exact A | exact B |].
+  intros X. rewrite C. unfold toks_ahead at 1. cbn. rewrite HT. reflexivity.
+Qed.
+
+Lemma process_directives_bal fuel : forall p vs tags,
+  match process_directives fuel p vs tags with Parser.Ok q => same_brackets p q | _ => True end.
+Proof.
+  induction fuel as [|fuel IH]; intros p vs tags; [exact I|].
+  cbn [process_directives].
+  destruct (toks_ahead p) as [|[sp tk] r] eqn:HT; [rewrite (peek_nil _ HT); exact I|].
+  rewrite (peek_norm _ _ _ HT). cbn beta iota.
+  destruct tk; try (repeat split; try reflexivity; intros X; unfold toks_ahead at 1; cbn; rewrite HT; reflexivity).
+  - destruct vs; [exact I|].
+    match goal with |- context [process_directives fuel ?q ?a ?b] => specialize (IH q a b); destruct (process_directives fuel q a b) as [q'|e|n] end; try exact I.
+    destruct IH as (A & B & C). repeat split; [exact A | exact B |].
+    intros X. rewrite C. unfold toks_ahead at 1. cbn. rewrite HT. reflexivity.
+  - destruct (negb (is_empty_str h) && has_key h tags); [exact I|].
+    match goal with |- context [process_directives fuel ?q ?a ?b] => specialize (IH q a b); destruct (process_directives fuel q a b) as [q'|e|n] end; try exact I.
+    destruct IH as (A & B & C). repeat split; [exact A | exact B |].
+    intros X. rewrite C. unfold toks_ahead at 1. cbn. rewrite HT. reflexivity.
+Qed.
+
+
+#[local] Arguments parse_node : simpl never.
+#[local] Arguments process_directives : simpl never.
+#[local] Arguments skip_document_ends : simpl never.
+
+Lemma bpost_parse_node (P : Prop) q b i :
+  Rooted (p_states q) ->
+  (bal' (toks_ahead q) (stack_open (p_states q)) = true -> P) ->
+  bpost P (parse_node q b i).
+Proof.
+  intros HR HP. pose proof (parse_node_bal q b i HR) as H.
+  destruct (parse_node q b i) as [[ev p']|e|n]; try exact I.
+  cbn [bpost] in *. destruct H as [A B]. split; [exact A|]. intros G. apply HP, B, G.
+Qed.
+
+Ltac bfin HT HR ::=
+  first
+  [ exact I
+  | (apply bpost_parse_node; [ cbn; first [ exact HR | (constructor; [reflexivity | exact HR]) ]
+                             | cbn; rewrite ?HT; cbn; (let HH := fresh "HH" in intro HH; exact HH) ])
+  | (apply bpost_pop; [ cbn; exact HR | intros; split; reflexivity | intros; reflexivity
+                      | cbn; rewrite ?HT; cbn; (let HH := fresh "HH" in intro HH; exact HH) ])
+  | (cbn [bpost]; split; [ cbn; first [exact I | (do 2 eexists; reflexivity)]
+                         | unfold Good; cbn; rewrite ?HT; cbn; (let HH := fresh "HH" in intro HH; exact HH) ]) ].
+
+Ltac bx HT HR :=
+  cbn;
+  lazymatch goal with
+  | |- bpost _ (match ?r with [] => _ | _ :: _ => _ end) => is_var r; destruct r as [|[? ?] ?]; bx HT HR
+  | |- bpost _ (match (match ?r with [] => _ | _ :: _ => _ end) with _ => _ end) => is_var r; destruct r as [|[? ?] ?]; bx HT HR
+  | |- bpost _ (match (match ?tk with _ => _ end) with _ => _ end) => is_var tk; destruct tk; bx HT HR
+  | |- bpost _ (match ?tk with _ => _ end) => first [ is_var tk; destruct tk; bx HT HR | bfin HT HR ]
+  | |- bpost _ (if ?b then _ else _) => is_var b; destruct b; bx HT HR
+  | |- _ => bfin HT HR
+  end.
+
+(* start: split on the remaining tokens of [p] and normalise the first peek *)
+Ltac bstart HT :=
+  match goal with
+  | |- context [Parser.peek ?p] =>
+      destruct (toks_ahead p) as [|[? ?] ?] eqn:HT; [rewrite (peek_nil _ HT); exact I | rewrite (peek_norm _ _ _ HT)]
+  end.
+
+Lemma block_mapping_key_bal p :
+  Rooted (p_states p) ->
+  bpost (bal' (toks_ahead p) (stack_open (p_states p)) = true) (block_mapping_key p false).
+Proof. intros HR. unfold block_mapping_key. bstart HT; bx HT HR. Qed.
+
+Lemma block_mapping_first_key_bal p sp0 r0 :
+  Rooted (p_states p) -> toks_ahead p = (sp0, TBlockMappingStart) :: r0 ->
+  bpost (bal' (toks_ahead p) (stack_open (p_states p)) = true) (block_mapping_key p true).
+Proof. intros HR HT. unfold block_mapping_key. rewrite (peek_norm _ _ _ HT). bx HT HR. Qed.
+
+Lemma block_mapping_value_bal p :
+  Rooted (p_states p) ->
+  bpost (bal' (toks_ahead p) (stack_open (p_states p)) = true) (block_mapping_value p).
+Proof. intros HR. unfold block_mapping_value. bstart HT; bx HT HR. Qed.
+
+Lemma block_sequence_entry_bal p :
+  Rooted (p_states p) ->
+  bpost (bal' (toks_ahead p) (stack_open (p_states p)) = true) (block_sequence_entry p false).
+Proof. intros HR. unfold block_sequence_entry. bstart HT; bx HT HR. Qed.
+
+Lemma block_sequence_first_entry_bal p sp0 r0 :
+  Rooted (p_states p) -> toks_ahead p = (sp0, TBlockSequenceStart) :: r0 ->
+  bpost (bal' (toks_ahead p) (stack_open (p_states p)) = true) (block_sequence_entry p true).
+Proof. intros HR HT. unfold block_sequence_entry. rewrite (peek_norm _ _ _ HT). bx HT HR. Qed.
+
+Lemma indentless_sequence_entry_bal p :
+  Rooted (p_states p) ->
+  bpost (bal' (toks_ahead p) (stack_open (p_states p)) = true) (indentless_sequence_entry p).
+Proof. intros HR. unfold indentless_sequence_entry. bstart HT; bx HT HR. Qed.
+
+Lemma flow_sequence_entry_bal p :
+  Rooted (p_states p) ->
+  bpost (bal' (toks_ahead p) (true :: stack_open (p_states p)) = true) (flow_sequence_entry p false).
+Proof. intros HR. unfold flow_sequence_entry. bstart HT; bx HT HR. Qed.
+
+Lemma flow_sequence_first_entry_bal p sp0 r0 :
+  Rooted (p_states p) -> toks_ahead p = (sp0, TFlowSequenceStart) :: r0 ->
+  bpost (bal' (toks_ahead p) (stack_open (p_states p)) = true) (flow_sequence_entry p true).
+Proof. intros HR HT. unfold flow_sequence_entry. rewrite (peek_norm _ _ _ HT). bx HT HR. Qed.
+
+Lemma flow_mapping_key_bal p :
+  Rooted (p_states p) ->
+  bpost (bal' (toks_ahead p) (false :: stack_open (p_states p)) = true) (flow_mapping_key p false).
+Proof. intros HR. unfold flow_mapping_key. bstart HT; bx HT HR. Qed.
+
+Lemma flow_mapping_first_key_bal p sp0 r0 :
+  Rooted (p_states p) -> toks_ahead p = (sp0, TFlowMappingStart) :: r0 ->
+  bpost (bal' (toks_ahead p) (stack_open (p_states p)) = true) (flow_mapping_key p true).
+Proof. intros HR HT. unfold flow_mapping_key. rewrite (peek_norm _ _ _ HT). bx HT HR. Qed.
+
+Lemma flow_mapping_value_bal p empty :
+  Rooted (p_states p) ->
+  bpost (bal' (toks_ahead p) (false :: stack_open (p_states p)) = true) (flow_mapping_value p empty).
+Proof. intros HR. unfold flow_mapping_value. destruct empty; bstart HT; bx HT HR. Qed.
+
+Lemma fsem_key_bal p :
+  Rooted (p_states p) ->
+  bpost (balk (toks_ahead p) (true :: stack_open (p_states p)) = true) (flow_sequence_entry_mapping_key p).
+Proof. intros HR. unfold flow_sequence_entry_mapping_key. bstart HT; bx HT HR. Qed.
+
+Lemma fsem_value_bal p :
+  Rooted (p_states p) ->
+  bpost (bal' (toks_ahead p) (true :: stack_open (p_states p)) = true) (flow_sequence_entry_mapping_value p).
+Proof. intros HR. unfold flow_sequence_entry_mapping_value. bstart HT; bx HT HR. Qed.
+
+Lemma fsem_end_bal p m :
+  Rooted (p_states p) ->
+  bpost (bal' (toks_ahead p) (true :: stack_open (p_states p)) = true) (flow_sequence_entry_mapping_end p m).
+Proof. intros HR. unfold flow_sequence_entry_mapping_end. cbn [bpost]. split; [exact I|]. unfold Good. cbn. intro H; exact H. Qed.
+
+(* ---- document level (2) ---- *)
+Lemma stream_start_bal p :
+  p_states p = [] -> bpost (bal' (toks_ahead p) [] = true) (stream_start p).
+Proof.
+  intros EK. unfold stream_start. bstart HT. cbn beta iota. destruct t; try exact I.
+  cbn [bpost]. split; [exact I|]. unfold Good. cbn. rewrite EK. cbn. intro H; exact H.
+Qed.
+
+Lemma explicit_document_start_bal p :
+  p_states p = [] -> bpost (bal' (toks_ahead p) [] = true) (explicit_document_start p).
+Proof.
+  intros EK. unfold explicit_document_start.
+  pose proof (process_directives_bal (S (S (length (p_toks p)))) p false []) as HP.
+  destruct (process_directives _ p false []) as [q|e|n]; try exact I.
+  destruct HP as (A & B & C).
+  destruct (toks_ahead q) as [|[sp tk] r] eqn:HT; [rewrite (peek_nil _ HT); exact I|].
+  rewrite (peek_norm _ _ _ HT). cbn beta iota. destruct tk; try exact I.
+  cbn [bpost]. split; [exact I|]. unfold Good. cbn. rewrite B, EK. cbn.
+  intros H. rewrite <- C. cbn. exact H.
+Qed.
+
+Lemma document_start_bal p implicit :
+  p_states p = [] -> bpost (bal' (toks_ahead p) [] = true) (document_start p implicit).
+Proof.
+  intros EK. unfold document_start.
+  pose proof (skip_document_ends_bal (S (S (length (p_toks p)))) p) as HP.
+  destruct (skip_document_ends _ p) as [q|e|n]; try exact I.
+  destruct HP as (A & B & C).
+  destruct (toks_ahead q) as [|[sp tk] r] eqn:HT; [rewrite (peek_nil _ HT); exact I|].
+  rewrite (peek_norm _ _ _ HT). cbn beta iota.
+  set (q1 := set_tok q r (Some (sp, tk))).
+  assert (EQ : p_states q1 = []) by (unfold q1; cbn; congruence).
+  assert (TQ : forall X, bal' (toks_ahead q1) X = bal' (toks_ahead p) X).
+  { intros X. rewrite <- C. reflexivity. }
+  assert (Expl : bpost (bal' (toks_ahead p) [] = true) (explicit_document_start q1)).
+  { pose proof (explicit_document_start_bal q1 EQ) as H.
+    destruct (explicit_document_start q1) as [[ev p']|e|n]; try exact I.
+    cbn [bpost] in *. destruct H as [H1 H2]. split; [exact H1|]. intros G. rewrite <- TQ. exact (H2 G). }
+  destruct tk; try exact Expl;
+    try (destruct implicit; [|exact Expl];
+         match goal with |- context [process_directives ?f ?x false []] =>
+           pose proof (process_directives_bal f x false []) as HP;
+           destruct (process_directives f x false []) as [q2|e2|n2]; try exact I end;
+         destruct HP as (A2 & B2 & C2);
+         cbn [bpost]; split; [exact I|]; unfold Good; cbn; rewrite B2; cbn; rewrite B, EK; cbn;
+         intros H; rewrite <- TQ; unfold q1; rewrite <- C2; exact H).
+  (* StreamEnd *)
+  cbn [bpost]. split; [exact I|]. intros _. rewrite <- C. reflexivity.
+Qed.
+
+Lemma document_content_bal p :
+  Rooted (p_states p) ->
+  bpost (bal' (toks_ahead p) (stack_open (p_states p)) = true) (document_content p).
+Proof.
+  intros HR. unfold document_content. bstart HT. cbn beta iota.
+  destruct t; try (apply bpost_parse_node; [cbn; exact HR | cbn; rewrite ?HT; cbn; intro H; exact H]);
+    (apply bpost_pop; [ cbn; exact HR | intros; split; reflexivity | intros; reflexivity
+                      | cbn; rewrite ?HT; cbn; intro H; exact H ]).
+Qed.
+
+Lemma document_end_bal p :
+  p_states p = [] -> bpost (bal' (toks_ahead p) [] = true) (document_end p).
+Proof.
+  intros EK. unfold document_end. bstart HT. cbn beta iota.
+  destruct t; cbn beta iota; destruct (p_keep_tags _); cbn;
+    try (destruct l as [|[? t2] ?]; [exact I|]; cbn; destruct t2; try exact I);
+    (cbn [bpost]; split; [exact I|]; unfold Good; cbn; rewrite ?EK; cbn; rewrite ?HT; cbn; intro H; exact H).
+Qed.
+
+Theorem state_machine_bal p g :
+  Inv p g -> first_ok p -> p_state p <> SEnd -> bpost (Good p) (state_machine p).
+Proof.
+  unfold Inv, state_machine, Good, first_ok. intros HI HF HE.
+  destruct (p_state p) eqn:ES; cbn [InvS cur_frames] in HI;
+    try (destruct HI as [HK _]);
+    cbn [frames_of app].
+  - rewrite HK. apply stream_start_bal; exact HK.
+  - rewrite HK. apply document_start_bal; exact HK.
+  - rewrite HK. apply document_start_bal; exact HK.
+  - apply document_content_bal; exact HK.
+  - rewrite HK. apply document_end_bal; exact HK.
+  - apply parse_node_bal; exact HK.
+  - destruct HF as (sp0 & r0 & HT). eapply block_sequence_first_entry_bal; [exact HK | exact HT].
+  - apply block_sequence_entry_bal; exact HK.
+  - apply indentless_sequence_entry_bal; exact HK.
+  - destruct HF as (sp0 & r0 & HT). eapply block_mapping_first_key_bal; [exact HK | exact HT].
+  - apply block_mapping_key_bal; exact HK.
+  - apply block_mapping_value_bal; exact HK.
+  - destruct HF as (sp0 & r0 & HT). eapply flow_sequence_first_entry_bal; [exact HK | exact HT].
+  - apply flow_sequence_entry_bal; exact HK.
+  - apply fsem_key_bal; exact HK.
+  - apply fsem_value_bal; exact HK.
+  - apply fsem_end_bal; exact HK.
+  - destruct HF as (sp0 & r0 & HT). eapply flow_mapping_first_key_bal; [exact HK | exact HT].
+  - apply flow_mapping_key_bal; exact HK.
+  - apply flow_mapping_value_bal; exact HK.
+  - apply flow_mapping_value_bal; exact HK.
+  - congruence.
+Qed.
+
+Lemma parse_all_good fuel : forall p se acc g,
+  Inv p g -> first_ok p -> snd (parse_all fuel p se acc) = PDone -> Good p.
+Proof.
+  induction fuel as [|fuel IH]; intros p se acc g HI HF HD; [cbn in HD; discriminate|].
+  rewrite parse_all_S in HD.
+  destruct (N.eq_dec 0 0) as [_|]; [|congruence].
+  assert (HS : p_state p = SEnd \/ p_state p <> SEnd) by (destruct (p_state p); (left; reflexivity) || (right; discriminate)).
+  destruct HS as [HS|HS]; [unfold Good; rewrite HS; exact I|].
+  assert (HD' : snd (step_result fuel p se acc) = PDone) by (destruct (p_state p); try exact HD; congruence).
+  unfold step_result in HD'.
+  pose proof (state_machine_post p g HI HS) as HP.
+  pose proof (state_machine_bal p g HI HF HS) as HB.
+  destruct (state_machine p) as [[[e sp] p']|er|n].
+  - destruct HP as [g' [_ HI']]. cbn [bpost] in HB. destruct HB as [HF' HG].
+    apply HG. exact (IH p' se ((e, sp) :: acc) g' HI' HF' HD').
+  - destruct er; [destruct se; cbn in HD'; discriminate | cbn in HD'; discriminate].
+  - cbn in HD'. discriminate.
+Qed.
+
+(* Every token stream the parser accepts (for ANY token list, scanner ending and fuel) obeys the bracket discipline
+   [bal']: flow brackets are balanced and matched up to StreamEnd -- except for the closers swallowed behind '?'. *)
+Theorem accepted_implies_balanced_modulo_swallowed_closer toks keep se fuel :
+  snd (parse_all fuel (init_parser toks keep) se []) = PDone -> bal' toks [] = true.
+Proof.
+  intros H. pose proof (parse_all_good fuel _ se [] GInit (init_inv toks keep) I H) as G.
+  exact G.
+Qed.
+
+(* ... and when no Key token is directly followed by FlowSequenceEnd the discipline is the plain one *)
+Fixpoint no_key_then_closer (l : list token) : bool :=
+  match l with
+  | (_, TKey) :: (((_, TFlowSequenceEnd) :: _) as r) => false
+  | _ :: r => no_key_then_closer r
+  | [] => true
+  end.
+
+Lemma no_key_then_closer_tl t r : no_key_then_closer (t :: r) = true -> no_key_then_closer r = true.
+Proof.
+  destruct t as [sp tk]. destruct tk; cbn; try (intro H; exact H).
+  destruct r as [|[sp2 tk2] r2]; [reflexivity|]. destruct tk2; try (intro H; exact H). discriminate.
+Qed.
+
+Lemma bal'_plain l : forall stk, no_key_then_closer l = true -> bal' l stk = flow_balanced l stk.
+Proof.
+  induction l as [|[sp tk] r IH]; intros stk H; [reflexivity|].
+  pose proof (no_key_then_closer_tl _ _ H) as Hr.
+  destruct tk; cbn [bal' flow_balanced]; try (apply IH; exact Hr); try reflexivity;
+    try (destruct stk as [|[|] s]; try reflexivity; apply IH; exact Hr).
+  (* Key *)
+  destruct r as [|[sp2 tk2] r2]; [reflexivity|].
+  destruct tk2; try (apply IH; exact Hr).
+  cbn in H. discriminate.
+Qed.
+
+Theorem accepted_implies_balanced_without_swallowed_closer toks keep se fuel :
+  no_key_then_closer toks = true ->
+  snd (parse_all fuel (init_parser toks keep) se []) = PDone -> flow_balanced toks [] = true.
+Proof.
+  intros HN H. rewrite <- (bal'_plain toks [] HN).
+  exact (accepted_implies_balanced_modulo_swallowed_closer toks keep se fuel H).
+Qed.
